@@ -6,6 +6,8 @@ import "testing"
 // (a violation or a harness error was recorded); false lets the seeded random exploration continue.
 func enumerate(t *testing.T, c *collector) bool {
 	switch *fProp {
+	case "C09":
+		return enumerateC09(t, c, *fWorkers)
 	case "C10":
 		return enumerateC10(t, c, *fWorkers)
 	}
